@@ -27,10 +27,11 @@ import (
 // ---- mirror of the harness types (simsrc/gensim)
 
 type GenInput struct {
-	Spec    string `json:"spec"`
-	Config  string `json:"config,omitempty"`
-	Package string `json:"package,omitempty"`
-	Dir     string `json:"dir,omitempty"`
+	Spec    string            `json:"spec"`
+	Config  string            `json:"config,omitempty"`
+	Package string            `json:"package,omitempty"`
+	Dir     string            `json:"dir,omitempty"`
+	Overlay map[string]string `json:"overlay,omitempty"`
 }
 
 type HistItem struct {
@@ -273,6 +274,20 @@ func (e *Engine) RunAll(bin string, scs []Scenario, perProc, jobs int) ([]Result
 
 // ---- workload
 
+// editedParts: for a multi-file world (worlds/gen/multi/root.yml) the content its external document parts.yml
+// had "before it was edited" (parts.alt, next to it): an earlier generation of the same process may have read the
+// same location with that content.
+func editedParts(spec string) map[string]string {
+	if filepath.Base(filepath.Dir(spec)) != "multi" {
+		return nil
+	}
+	b, err := os.ReadFile(filepath.Join(build.VerifDir, "worlds", "gen", "multi", "parts.alt"))
+	if err != nil {
+		return nil
+	}
+	return map[string]string{"parts.yml": string(b)}
+}
+
 // siblings are the other inputs whose document name differs from in's only behind the last underscore.
 func siblings(in Input, all []Input) []Input {
 	stem := func(p string) string {
@@ -456,6 +471,10 @@ func (e *Engine) sample(rng *rand.Rand, in Input, all []Input, i int, sched bool
 			switch rng.Intn(5) {
 			case 0:
 				h.Input = in.In // same spec before
+				if alt := editedParts(in.In.Spec); alt != nil && rng.Intn(2) == 0 {
+					// the same document, whose external part had other content when it was read then
+					h.Input.Overlay = alt
+				}
 			case 1:
 				h.Input = in.In
 				h.FSFailFile = []string{"oas_schemas_gen.go", "oas_cfg_gen.go", "oas_json_gen.go"}[rng.Intn(3)]
